@@ -117,7 +117,9 @@ def handleBook (j : Json) : Except String Json := do
     match o with
     | .cons r P lam lt lo hi => consFreshB s.kind s.ancilla r P lam lt (lo, hi)
     | _ => true)
-  let fin := match tr.getLast? with | some se => se.1 | none => init κ
+  -- the final state as `Book.run` computes it (the function the history theorems are about): the conversion outputs below
+  -- are compared with the real object after the whole history
+  let fin := run fx κ ops
   pure (Json.mkObj [
     ("steps", Json.arr (tr.map stateJson).toArray), ("fresh", fresh),
     ("conv", Json.mkObj [("base", natArr (sortNat (convBase fin))), ("ancStart", (ancStart fx fin : Json)),
